@@ -53,6 +53,8 @@ impl Property for C07 {
         } else {
             None
         };
+        // explicitly built buffers are also aligned more strictly than the message needs (x1, x2, x4)
+        let align_shift = capacity.map_or(0, |c| ((c / model::align(ty)) % 3) as u32);
         let total = msgs.total();
         let cuts = msgs.interesting_cuts(ty);
         let wchunks = gen_chunks(total, &cuts, &mut t);
@@ -65,8 +67,10 @@ impl Property for C07 {
         st.eval(1);
         msgs.install_post_ops();
         crate::io_glue::IO_CAPACITY.with(|c| c.set(capacity));
+        crate::io_glue::IO_ALIGN_SHIFT.with(|c| c.set(align_shift));
         let sends = lib(|| sh.io_send_blocking(&msgs.initial, &routes, max_msg_len, &mut sink, false));
         crate::io_glue::IO_CAPACITY.with(|c| c.set(None));
+        crate::io_glue::IO_ALIGN_SHIFT.with(|c| c.set(0));
         Msgs::clear_post_ops();
         let sends = match sends {
             Ok(s) => s,
@@ -96,6 +100,7 @@ impl Property for C07 {
         let mut source = ScriptSource::new(sink.data.clone(), routs(&rchunks), ROut::Deliver(usize::MAX), budget);
         st.eval(1);
         crate::io_glue::IO_CAPACITY.with(|c| c.set(capacity));
+        crate::io_glue::IO_ALIGN_SHIFT.with(|c| c.set(align_shift));
         // a third of the cases: some guards are retain()ed first ("do not remove the message"), the message
         // must then be received again
         let retain_mask = if routes[5] % 3 == 0 { routes[4] as u64 } else { 0 };
@@ -103,6 +108,7 @@ impl Property for C07 {
         let recvs = lib(|| sh.io_recv_blocking(&mut source, max_msg_len, msgs.values.len() + 3, 0));
         crate::io_glue::RETAIN_MASK.with(|m| m.set(0));
         crate::io_glue::IO_CAPACITY.with(|c| c.set(None));
+        crate::io_glue::IO_ALIGN_SHIFT.with(|c| c.set(0));
         let recvs = match recvs {
             Ok(r) => r,
             Err(p) => crate::vfail!("panic", "{}: blocking receiver panicked: {}", name, p),
